@@ -193,6 +193,37 @@ func checkC08(c *Check) {
 	c.Analysed(fnName(mr))
 	c.matcherShape(mr)
 	c.subsetShape()
+	// an auditor's attestation is merged only with that auditor's own earlier attestation: what
+	// CreateOrUpdateProviderAttributes reads is the record under the very key it writes (owner AND auditor), never an
+	// owner-wide listing (whose first element belongs to whichever auditor sorts first)
+	{
+		fn := l.Func("x/audit/keeper", "Keeper", "CreateOrUpdateProviderAttributes")
+		c.Analysed(fnName(fn))
+		setKey := ""
+		var gets []string
+		wide := ""
+		for _, call := range callsIn(fn, false) {
+			m := calleeMethod(call)
+			full := calleeFull(call)
+			switch {
+			case m == "Set" && strings.Contains(full, "KVStore"):
+				setKey = Sym(call.Common().Args[0])
+			case m == "Get" && strings.Contains(full, "KVStore"):
+				gets = append(gets, Sym(call.Common().Args[0]))
+			default:
+				if g := call.Common().StaticCallee(); g != nil && fnPkgPath(g) == akash+"/x/audit/keeper" && g.Signature.Results().Len() > 0 && strings.HasSuffix(g.Signature.Results().At(0).Type().String(), "audit/types.Providers") {
+					wide = fnName(g)
+				}
+			}
+		}
+		okKey := setKey != "" && len(gets) > 0
+		for _, gk := range gets {
+			if gk != setKey {
+				okKey = false
+			}
+		}
+		c.Ob("R2", "audit keeper: an attestation is merged with the record stored under the same (owner, auditor) key", fn.Pos(), okKey && wide == "", "the earlier attestation is read through "+map[bool]string{true: "a different key than the one written", false: wide + " (all auditors of the owner)"}[wide == ""]+": one auditor's record inherits attributes another auditor signed")
+	}
 	// a revocation takes effect: the audited attributes handed to the matcher are what the audit store holds, so a
 	// successful delete request must have rewritten or removed the record
 	for _, name := range []string{"DeleteProviderAttributes", "CreateOrUpdateProviderAttributes"} {
@@ -338,6 +369,33 @@ func checkC08(c *Check) {
 			c.Ob("R3", "an order not covered by the new attributes records an error", call.Pos(), mism, "")
 		}
 		c.Ob("R3", "scan callback checks order attributes", cb.Pos(), nm == 1, "")
+	}
+	// the guard's own predicate: GroupSpec.MatchAttributes answers with "required attributes are a subset of the given
+	// ones" on every path (no shortcut that answers true)
+	{
+		ma := l.Func("x/deployment/types", "GroupSpec", "MatchAttributes")
+		c.Analysed(fnName(ma))
+		okLeaves, n := true, 0
+		bad := ""
+		for _, b := range ma.Blocks {
+			r, isR := b.Instrs[len(b.Instrs)-1].(*ssa.Return)
+			if !isR {
+				continue
+			}
+			for _, lf := range retLeaves(r.Results[0], b, map[ssa.Value]bool{}) {
+				n++
+				if isConstBool(lf.val, false) {
+					continue
+				}
+				s := Sym(lf.val)
+				if strings.HasPrefix(s, "types.AttributesSubsetOf(p:g.Requirements.Attributes, ") || strings.HasPrefix(s, "types.Attributes.SubsetOf(p:g.Requirements.Attributes, ") {
+					continue
+				}
+				okLeaves = false
+				bad = short(s)
+			}
+		}
+		c.Ob("R3", "order attribute guard: MatchAttributes is positive only if the required attributes are a subset of the offered ones", ma.Pos(), okLeaves && n > 0, "MatchAttributes can answer "+bad+" without the subset test: a provider may drop attributes its active leases were matched on")
 	}
 	c.Floor("R3", 6)
 }
